@@ -4,16 +4,39 @@
    exchanges complete in ANY order and the cache may drop ANY entry at ANY time.  Components enter through their
    contracts: the key is injective on (question, group) (C07), an exchange returns the upstream's reply to its own
    query (C05/C06), a hit under k returns a value stored under k (C07), recycled objects behave as values (C20). *)
-From Mos Require Import Base.Prelude Codec.Name Router.System Router.SystemProofs.
+From Mos Require Import Base.Prelude Codec.Name Codec.NameProofs Cache.CacheKey Cache.CacheKeyProofs
+  Router.System Router.SystemProofs.
 
-Theorem C04_own_answer : forall (Q A : Type) (key : Q -> list N) (ans : Q -> A),
-  (forall q1 q2, key q1 = key q2 -> q1 = q2) ->
+(* for any key that is injective on the domain D of questions that can arrive *)
+Theorem C04_own_answer : forall (Q A : Type) (key : Q -> list N) (ans : Q -> A) (D : Q -> Prop),
+  (forall q1 q2, D q1 -> D q2 -> key q1 = key q2 -> q1 = q2) ->
   forall (ls : list (sys_label Q)) (s : sys_state Q A),
+  Forall (label_ok Q D) ls ->
   sys_run Q A key ans (sys_init Q A) ls = Some s ->
   (forall i q a c, nth_error (sy_reqs Q A s) i = Some (mkSysReq Q A q (SpDone A a c)) -> a = ans q) /\
-  (forall q a, sys_find A (key q) (sy_cache Q A s) = Some a -> a = ans q).
+  (forall q a, D q -> sys_find A (key q) (sy_cache Q A s) = Some a -> a = ans q).
 Proof. exact sys_own_answer. Qed.
 Print Assumptions C04_own_answer.
+
+(* ... instantiated with the router's real cache key (C07): questions are (lower-cased well-formed name, class, type,
+   client-group label), the key is cacheKey's byte layout, whose injectivity is C07_cache_key_injective *)
+Definition c04_question := (list N * N * N * list N)%type.
+Definition c04_key (q : c04_question) : list N := let '(n, c, t, m) := q in cache_key n c t m.
+Definition c04_dom (q : c04_question) : Prop :=
+  let '(n, c, t, m) := q in wf_name n /\ (c < 65536)%N /\ (t < 65536)%N.
+
+Theorem C04_own_answer_real_key : forall (A : Type) (ans : c04_question -> A)
+  (ls : list (sys_label c04_question)) (s : sys_state c04_question A),
+  Forall (label_ok c04_question c04_dom) ls ->
+  sys_run c04_question A c04_key ans (sys_init c04_question A) ls = Some s ->
+  forall i q a c, nth_error (sy_reqs c04_question A s) i = Some (mkSysReq c04_question A q (SpDone A a c)) -> a = ans q.
+Proof.
+  intros A ans ls s Hl Hr.
+  refine (proj1 (sys_own_answer c04_question A c04_key ans c04_dom _ ls s Hl Hr)).
+  intros [[[n1 c1] t1] m1] [[[n2 c2] t2] m2] (W1 & C1 & T1) (W2 & C2 & T2) H. cbn in H.
+  destruct (cache_key_injective n1 c1 t1 m1 n2 c2 t2 m2 W1 W2 C1 C2 T1 T2 H) as (-> & -> & -> & ->). reflexivity.
+Qed.
+Print Assumptions C04_own_answer_real_key.
 
 (* the injectivity hypothesis is necessary: with a colliding key the model DOES serve one question's answer to another *)
 Theorem C04_needs_injective_key :
